@@ -115,6 +115,8 @@ func props() []prop {
 				{Check: "ringref", Pkg: "internal/queues", Timeout: [2]time.Duration{3 * min, 20 * min}},
 				{Check: "ringlin", Pkg: "internal/queues", Race: true, Shards: [2]int{4, 16}, Timeout: [2]time.Duration{5 * min, 30 * min}, CrashKey: "crash"},
 				{Check: "mailboxsched", Pkg: "internal/mailbox", Instr: []string{"internal/mailbox/unbounded_mailbox.go"}, Shards: [2]int{8, 16}, Timeout: [2]time.Duration{5 * min, 40 * min}, OnlyKinds: []string{"prio-", "order-"}},
+				{Check: "orderactor", Pkg: "internal/actor", Shards: [2]int{8, 16}, Timeout: [2]time.Duration{5 * min, 20 * min}, OnlyKinds: []string{"order-", "harness-"}},
+				{Check: "stashmodel", Pkg: "internal/actor", Shards: [2]int{8, 16}, Timeout: [2]time.Duration{5 * min, 30 * min}, OnlyKinds: []string{"order-", "harness-"}},
 				{Check: "ringfifo", Pkg: "internal/queues", Race: true, Shards: [2]int{4, 8}, Timeout: [2]time.Duration{5 * min, 30 * min}, CrashKey: "crash"},
 			},
 		},
